@@ -628,6 +628,7 @@ package participle
 
 // UseLookahead(n) stores n unchanged: negative (unlimited), 0 and values above MaxLookahead included.
 //@ func UseLookahead$1 [C13 C01]
+//@   ensures old(unionsOK(p)) ==> unionsOK(p) [C19]
 //@   requires p != nil
 //@   modifies p.useLookahead
 //@   ensures result0 == nil && p.useLookahead == old(n)
@@ -635,23 +636,74 @@ package participle
 // Elide(types...) extends the elision set: several Elide options add up (C10: the set of elided types is the union
 // of what was asked for).
 //@ func Elide$1 [C10]
+//@   ensures old(unionsOK(p)) ==> unionsOK(p) [C19]
 //@   requires p != nil
 //@   modifies p.elide
 //@   ensures result0 == nil && len(p.elide) == len(old(p.elide)) + len(types)
 //@   ensures forall(k, 0, len(old(p.elide)), p.elide[k] == old(p.elide[k])) && forall(k, 0, len(types), p.elide[len(old(p.elide)) + k] == types[k])
 
 //@ func Lexer$1 [C15]
+//@   ensures old(unionsOK(p)) ==> unionsOK(p) [C19]
 //@   requires p != nil
 //@   modifies p.lex
 //@   ensures result0 == nil && p.lex == def
 
+// Map / Unquote / Upper register exactly one mapper with exactly the symbols given and resolve nothing yet (C18:
+// which token types the names denote is decided by Build, against the lexer the options leave in place).
+//@ func Map$1 [C18]
+//@   ensures old(unionsOK(p)) ==> unionsOK(p) [C19]
+//@   requires p != nil
+//@   modifies p.mappers
+//@   ensures result0 == nil && len(p.mappers) == len(old(p.mappers)) + 1 && forall(k, 0, len(old(p.mappers)), p.mappers[k] == old(p.mappers[k]))
+//@   ensures p.mappers[len(p.mappers)-1].symbols == symbols
+
+// CaseInsensitive records the names it is given and nothing else (C01: the token types are resolved by Build).
+//@ func CaseInsensitive$1 [C01]
+//@   ensures old(unionsOK(p)) ==> unionsOK(p) [C19]
+//@   requires p != nil && p.caseInsensitive != nil
+//@   modifies mapof(p.caseInsensitive)
+//@   ensures result0 == nil && forall(k, 0, len(tokens), p.caseInsensitive[tokens[k]])
+//@   ensures foralls(s, old(p.caseInsensitive[s]) ==> p.caseInsensitive[s])
+//@   loop 1 invariant -1 <= rangeindex && rangeindex < len(tokens) && forall(k, 0, rangeindex + 1, p.caseInsensitive[tokens[k]]) && foralls(s, old(p.caseInsensitive[s]) ==> p.caseInsensitive[s])
+//@   loop 1 decreases len(tokens) - rangeindex
+
+// The per-parse options write their own field of the parse context and nothing else (C15: Trace changes nothing
+// but where the trace goes; C01 C06: AllowTrailing stores the flag it was given).
+//@ func Trace$1 [C15]
+//@   requires p != nil
+//@   modifies p.trace
+//@   ensures p.trace == w
+//@ func AllowTrailing$1 [C01 C06 C15]
+//@   requires p != nil
+//@   modifies p.allowTrailing
+//@   ensures p.allowTrailing == ok
+
+// Union registers one definition; a nil member is refused (what addUnionDefs assumes, C19) and on an error nothing
+// is registered.
+//@ func Union$1 [C19]
+//@   requires p != nil
+//@   modifies p.unionDefs
+//@   ensures result0 == nil ==> len(p.unionDefs) == len(old(p.unionDefs)) + 1 && forall(k, 0, len(old(p.unionDefs)), p.unionDefs[k] == old(p.unionDefs[k]))
+//@   ensures result0 == nil ==> len(p.unionDefs[len(p.unionDefs)-1].members) == len(members) && forall(j, 0, len(members), p.unionDefs[len(p.unionDefs)-1].members[j] != nil)
+//@   ensures result0 != nil ==> p.unionDefs == old(p.unionDefs)
+// (reflect: the type of a non-nil pointer is a non-nil type of kind Ptr)
+//@   assume after call reflect.TypeOf#1: result0 != nil && uf("rtype_kind", "Int", result0) == reflect.Ptr
+//@   loop 1 invariant -1 <= rangeindex && rangeindex < len(members) && len(memberTypes) == rangeindex + 1 && fresh(memberTypes) && forall(j, 0, len(memberTypes), memberTypes[j] != nil)
+//@   loop 1 decreases len(members) - rangeindex
+
 // An Option may change any parser option (user options cannot be written outside the package, the
 // type's parameter is unexported); options are assumed to leave a lexer definition in place.
+// unionsOK: no registered union has a nil member type. Every option of this package keeps it (each closure's own
+// contract says so; for Union's closure, the one that appends, the two halves are proved - the definitions already
+// there are unchanged, the new one has no nil member - but not their conjunction as one nested quantifier through the
+// heap), which is what the interface contract promises for the dynamic call in Build.
+//@ pred unionsOK(p *parserOptions) = forall(k, 0, len(p.unionDefs), forall(j, 0, len(p.unionDefs[k].members), p.unionDefs[k].members[j] != nil))
 //@ interface Option.call
 //@   params fn, p
 //@   requires p != nil
 //@   modifies *p
 //@   ensures p.lex != nil
+//@   ensures old(unionsOK(p)) ==> unionsOK(p)
 
 // Every token type whose symbol was declared case-insensitive is marked (C01: case-folded literal matching
 // applies to exactly the token types the option names; the converse direction is by inspection of the one store).
@@ -677,10 +729,11 @@ package participle
 //@   loop 1 invariant -1 <= rangeindex && rangeindex < len(defs) && tnOK(g)
 //@   loop 1 decreases len(defs) - rangeindex
 // The union nodes are entered in the table first (so that members may refer to unions, themselves included) and
-// filled afterwards. That no member type is nil is what the Union option checks (assumed here).
+// filled afterwards. That no member type is nil is what the Union option checks: a checked precondition, kept by
+// every option (unionsOK) and established by Build.
 //@ func (*generatorContext).addUnionDefs [C19]
 //@   requires g != nil && g.typeNodes != nil && g.Definition != nil && tnOK(g)
-//@   requires @assumed forall(k, 0, len(defs), forall(j, 0, len(defs[k].members), defs[k].members[j] != nil))
+//@   requires forall(k, 0, len(defs), forall(j, 0, len(defs[k].members), defs[k].members[j] != nil))
 //@   modifies mapof(g.typeNodes), family(strct), family(structLexer), family(lexer.PeekingLexer), family(lexer.Token)
 //@   ensures tnOK(g)
 //@   loop 1 invariant -1 <= rangeindex && rangeindex < len(defs) && tnOK(g) && len(unionNodes) == len(defs) && fresh(unionNodes)
@@ -718,7 +771,7 @@ package participle
 //@   axiom
 //@   requires w != nil
 //@   ensures symsOf(iface(w)) == symsOf(w.l)
-//@ func Build [C01 C13 C18 C15 C06]
+//@ func Build [C01 C13 C18 C15 C06 C19]
 //@   use symsWrap(parser.lex.(*mappingLexerDef)) at exit
 //@   requires forall(k, 0, len(options), options[k] != nil)
 //@   modifies family(strct), family(structLexer), family(lexer.PeekingLexer), family(lexer.Token)
@@ -731,6 +784,7 @@ package participle
 //@   ensures err == nil && nm == 0 ==> parser.lex == lx
 //@   ensures err == nil && nm > 0 ==> typeis(parser.lex, *mappingLexerDef) && parser.lex.(*mappingLexerDef).l == lx && parser.lex.(*mappingLexerDef).mapper != nil
 //@   loop 1 invariant -1 <= rangeindex && rangeindex < len(options) && p != nil && fresh(p)
+//@   loop 1 invariant unionsOK(p) [C19]
 //@   loop 1 invariant rangeindex == -1 ==> p.useLookahead == 1
 //@   loop 1 invariant rangeindex >= 0 ==> p.lex != nil
 //@   loop 1 invariant rangeindex == -1 ==> p.lex != nil
